@@ -25,7 +25,18 @@ h_init2(void)
 	const struct crypto_aes_key * key;
 	const struct crypto_aes_key * key0 = S->key;
 
+#ifdef CTR_HAVOC_HWACCEL
+	{
+		IN(int, hw);
+		__CPROVER_assume(hw >= HW_SOFTWARE && hw <= HW_UNSET);
+		hwaccel = hw;
+	}
+#endif
+
 	crypto_aesctr_init2(S, key, nonce);
+#ifdef CTR_HAVOC_HWACCEL
+	__CPROVER_assert(hwaccel != HW_UNSET, "a path has been selected before the first stream call");
+#endif
 
 	__CPROVER_assert(S->bytectr == 0, "keystream restarts at position 0");
 	__CPROVER_assert(S->key == (key != NULL ? key : key0), "NULL key retains the previous key");
